@@ -46,6 +46,9 @@ func (r *fakeRelay) wsReceive(w http.ResponseWriter, req *http.Request) {
 		return
 	}
 	defer func() { _ = c.CloseNow() }()
+	r.mu.Lock()
+	r.wsRecvDials++
+	r.mu.Unlock()
 	ctx := req.Context()
 	_, init, err := c.Read(ctx)
 	if err != nil {
